@@ -40,7 +40,7 @@ PROPS["C04"] = {
     "level_text": 'Exhaustive for heights <= 3 (4 thorough) x all friendly counts x all query subsets with every single-position corruption, randomized to height 64 (sparse trees) against an independent Merkle prover; 4 hash builds in thorough, plus a Miri pass.',
     "level": "exploration",
     "technique": "runtime differential monitor: real vector_commitment_decommit vs an independent Merkle prover model, exhaustive small shapes + randomized large/sparse trees + single-position fault injection",
-    "rule": "cases = (hash build, height, friendly-layer count, leaf contents, sorted distinct query set[, one corruption]); heights 0..=3 (quick) / 0..=4 (thorough) x n_friendly 0..=h+1 x every non-empty query subset are enumerated, plus random full trees (h<=12) and sparse default-leaf trees (h<=64); a case is non-trivial when the tree has at least one hash layer; distinct = distinct (shape, queries, root, corruption label)",
+    "rule": "cases = (hash build, height, friendly-layer count, leaf contents, sorted distinct query set[, one corruption]); heights 0..=3 (quick) / 0..=4 (thorough) x n_friendly 0..=h+1 x every non-empty query subset are enumerated, plus random full trees (h<=12) and sparse default-leaf trees (h<=64) with friendly counts up to 2^32, 2^40, 2^63, 2^64-1; a case is non-trivial when the tree has at least one hash layer; distinct = distinct (shape, queries, root, corruption label)",
     "legs": [comp("merkle", "merkle"), tool_leg("miri", "miri", "comp", "mini", [("keccak_160_lsb",), ("blake2s_248_lsb",)], shards=8)],
     "required_counters": ["honest_accepted", "corrupt_rejected", "layers.mixed"],
     "assumptions": TRUSTED[:1] + ["index corruptions are only counted when the corrupted claim is false (sparse trees repeat default leaves)"],
@@ -50,7 +50,7 @@ PROPS["C05"] = {
     "level_text": 'Randomized differential exploration against an independent table-commitment model over column counts 1..16, 32, 128, heights to 48, all row-hash regimes, with per-cell fault injection and an oracle self-check (non-Montgomery commitment must be rejected).',
     "level": "exploration",
     "technique": "runtime differential monitor: real table_decommit vs an independent table-commitment model (Montgomery rows, row-hash rule), randomized shapes + single-cell fault injection",
-    "rule": "cases = (hash build, columns in {1..16,32,128}, height, friendly-layer count on both sides of height+1, rows, query set[, one corruption]); corruptions: every cell +1/random (<=64 cells sampled per instance), cells swapped across rows / columns, cell removed/appended, declared column count changed, commitment built without the Montgomery factor; distinct = distinct (shape, queries, root, corrupted values)",
+    "rule": "cases = (hash build, columns in {1..16,32,128}, height, friendly-layer count on both sides of height+1 and at 2^32..2^64-1, rows, query set[, one corruption]); corruptions: every cell +1/random/+2^200 (<=64 cells sampled per instance), cells swapped across rows / columns, cell removed/appended, all cells / all rows but one removed (the length classes are never sampled away), declared column count changed, commitment built without the Montgomery factor; distinct = distinct (shape, queries, root, corrupted values)",
     "legs": [comp("table", "table"), tool_leg("miri", "miri", "comp", "mini", [("keccak_248_lsb",), ("blake2s_160_lsb",)], shards=8)],
     "required_counters": ["honest_accepted", "corrupt_rejected", "rowhash.single_column_unhashed", "rowhash.row_poseidon", "rowhash.row_masked_hash"],
     "assumptions": TRUSTED[:1],
@@ -60,7 +60,7 @@ PROPS["C06"] = {
     "level_text": 'Differential exploration: an independent FRI prover (written from the protocol description) must be accepted on thousands of valid configurations, polynomials and query sets; folding identities checked directly on fri_formula / compute_next_layer.',
     "level": "exploration",
     "technique": "runtime differential monitor: an independent coefficient-space FRI prover (NTT, Merkle/table model, sponge model) must be accepted by the real fri_commit/fri_verify; fri_formula/compute_next_layer compared with the polynomial folding identity",
-    "rule": "cases = folding identities (coset size 2..16, random polynomial of degree<64, every domain 2^k..2^8, random/0/1 challenge) and honest FRI instances (2..=15 layers, steps 1..=4, last-layer log bound 0..=8, log blow-up 0..=4, friendly count around each layer height, zero/constant/max-degree/random polynomial, 1..=48 queries with same-coset and whole-coset patterns); every instance's config is first required to pass the real Config::validate; non-trivial = at least 2 layers",
+    "rule": "cases = folding identities (coset size 2..16, random polynomial of degree<64, every domain 2^k..2^8, random/0/1 challenge) and honest FRI instances (2..=15 layers, steps 1..=4, last-layer log bound 0..=8, log blow-up 0..=4, friendly count around each layer height, zero/constant/max-degree/random polynomial, polynomials divisible by x^(2^sum of steps) and the single maximal-degree monomial, friendly counts up to 2^64-1, 1..=48 queries with same-coset and whole-coset patterns); every instance's config is first required to pass the real Config::validate; non-trivial = at least 2 layers",
     "legs": [comp("fri", "fri")],
     "required_counters": ["honest_accepted", "formula.coset_size_16", "layers.15"],
     "assumptions": TRUSTED[:1],
@@ -70,7 +70,7 @@ PROPS["C07"] = {
     "level_text": 'Fault enumeration on honest FRI instances: every position of every kind (values, points, leaves, authentication nodes, commitments, challenges, coefficients, lengths) corrupted once; degree >= bound functions must be rejected (probabilistic bound <= queries * 2^-250 stated).',
     "level": "fault_enumeration",
     "technique": "runtime fault-injection monitor: every single-position corruption of honest FRI instances produced by the independent prover model, plus honestly folded functions of degree >= bound, must be rejected by the real fri_commit/fri_verify",
-    "rule": "for each honest instance (accepted first): each input value, each query point that is alone in its coset, each sibling leaf, each inner-layer authentication node (altered / dropped), each inner-layer commitment (before and after fri_commit), each FRI evaluation point, each last-layer coefficient, last layer of length 2^b+-1 and 2^(b+-1) (capped per class); high-degree: degree == bound, 2*bound-1, domain-1, random function, last layer truncated (a correct verifier accepts with probability <= queries*2^-250); point/challenge corruptions only on random polynomials, where the fold generically depends on them",
+    "rule": "for each honest instance (accepted first): each input value, each query point that is alone in its coset, each sibling leaf, each inner-layer authentication node (altered / dropped), each inner-layer commitment (before and after fri_commit), each FRI evaluation point, each last-layer coefficient, last layer of length 2^b+-1 and 2^(b+-1), a query listed twice with one copy carrying a wrong value (capped per class); a configuration stating one layer fewer than the prover folded (surplus trailing entries kept); high-degree: degree == bound, 2*bound-1, domain-1, random function, last layer truncated (a correct verifier accepts with probability <= queries*2^-250); point/challenge corruptions only on random polynomials, where the fold generically depends on them",
     "legs": [comp("frisound", "frisound")],
     "required_counters": ["honest_accepted", "corrupt_rejected", "high_degree_rejected"],
     "assumptions": TRUSTED[:1] + ["a panic inside fri_commit/fri_verify counts as 'not accepted' here and is reported under C18"],
@@ -80,11 +80,11 @@ PROPS["C08"] = {
     "level_text": "Online trace checking: (a) random API histories vs the sponge model with metamorphic dependence tests, (b) every verification run's hook trace vs the protocol grammar, (c) recorded Stone transcripts vs the prover's own V->P log.",
     "level": "exploration",
     "technique": "runtime trace monitor: random operation histories on the real Transcript checked against a sponge model (state after every op, every challenge, the hook's event chain) with metamorphic dependence checks",
-    "rule": "cases = histories of 1..=64 operations over read_felt / read_felt_vector(0..=300) / read_u64 / squeeze / squeeze_n / new_with_counter from random and extreme seeds; non-trivial = at least one absorb and one squeeze; distinct = distinct (seed, op list)",
+    "rule": "cases = histories of 1..=64 operations over read_felt / read_felt_vector(0..=300) / read_u64 / squeeze / squeeze_n / new_with_counter from random and extreme seeds; non-trivial = at least one absorb and one squeeze; distinct = distinct (seed, op list); protocol leg: honest proofs, surplus-element variants and sampled mutants against the message grammar, plus the query phase on domains of 2^1..2^10 points (repeated samples are the rule there): exactly n_queries challenges, consecutive counters, digest untouched",
     "legs": [comp("transcript", "transcript", builds={"quick": COMP_Q[:1], "thorough": COMP_Q[:1]}),
              full("recorded", "recorded", t=FULL_SHIPPED),
              full("protocol", "protocol", t=FULL_SHIPPED)],
-    "required_counters": ["squeezes_compared", "hook_events", "metamorphic_pairs", "recorded_transcripts_equal", "grammar_ok", "grammar_ok.surplus", "grammar_ok.mutant"],
+    "required_counters": ["squeezes_compared", "hook_events", "metamorphic_pairs", "recorded_transcripts_equal", "grammar_ok", "grammar_ok.surplus", "grammar_ok.mutant", "query_phase.runs_with_repeated_samples"],
     "assumptions": TRUSTED[:1],
 }
 
@@ -92,10 +92,10 @@ PROPS["C09"] = {
     "level_text": 'Differential exploration with oracle-ground threshold nonces (exactly n-1, n, n+1 zero bits), random triples to n = 128, exhaustive config range, commit atomicity, recorded triples of the shipped proofs.',
     "level": "exploration",
     "technique": "runtime differential monitor: real verify_pow / pow Config::validate / UnsentCommitment::commit vs a leading-zero-bit oracle, with nonces ground by the oracle to exactly n-1, n, n+1 zero bits",
-    "rule": "cases = (PoW hash, digest, n_bits, nonce): threshold triples for n in 0..=19 (quick) / 0..=24 (thorough), random triples with n in 0..=128, byte-swapped nonce/digest probes, all 256 config values (exhaustive), commit absorb-order/atomicity histories; non-trivial = decided within 2 bits of the threshold or an acceptance at n>=8",
-    "legs": [comp("pow", "pow"), full("recorded", "recorded", t=FULL_SHIPPED)],
-    "required_counters": ["threshold.oracle_accept", "threshold.oracle_reject", "config_values", "commit.good_nonce", "pow_recorded_triples"],
-    "assumptions": TRUSTED[:1] + ["acceptance at difficulties above 24 bits is only observed on the recorded Stone proofs (finding a preimage is the proof of work)"],
+    "rule": "cases = (PoW hash, digest, n_bits, nonce): threshold triples for n in 0..=19 (quick) / 0..=24 (thorough), random triples with n in 0..=128, byte-swapped nonce/digest probes, all 256 config values (exhaustive), commit absorb-order/atomicity histories, cached triples of difficulty 33 (one-off multi-minute grind, committed in profiles/pow_ground.json, re-decided by the oracle at run time); recorded leg: the shipped proofs' own triples at n_bits and n_bits+-8, and every shipped proof re-run with 6 oracle-refused nonces (nonce+-1, 0, 2^64-1, top bit flipped, byte-swapped): verification must stop at the proof-of-work step (error, no transcript activity after the last FRI layer); non-trivial = decided within 2 bits of the threshold or an acceptance at n>=8",
+    "legs": [comp("pow", "pow", args=["--powcache", "/verif/profiles/pow_ground.json"]), full("recorded", "recorded", t=FULL_SHIPPED)],
+    "required_counters": ["threshold.oracle_accept", "threshold.oracle_reject", "config_values", "commit.good_nonce", "pow_recorded_triples", "pow.bad_nonce_stopped_at_pow", "cache.accepting_triples_at_33_bits_or_more"],
+    "assumptions": TRUSTED[:1] + ["acceptance at difficulties above 24 bits is only observed on the recorded Stone proofs (24..32 bits) and on the cached ground triples (33 / 36 bits); finding a preimage IS the proof of work, so difficulties above ~36 bits are out of reach"],
 }
 
 PROPS["C03"] = {
@@ -111,13 +111,15 @@ PROPS["C03"] = {
 }
 
 PROPS["C12"] = {
-    "level_text": 'Complete enumeration of the 18 721 (t, c) pairs with independent order computations.',
+    "level_text": 'Complete enumeration of the 18 721 (t, c) pairs with independent order computations, on the std and the no-std build of swiftness_air.',
     "level": "exploration",
     "exhaustive": True,
     "technique": "runtime exhaustive monitor: StarkDomains::new on all 18721 (t, c) pairs, generator orders checked by independent BigUint exponentiation",
-    "rule": "all (log_trace_domain_size, log_n_cosets) with sum in 0..=192; per pair: sizes are the powers of two, g^(2^e) == 1 and g^(2^(e-1)) == -1 for both generators (order exactly 2^e / 2^t), trace_generator == eval_generator^(2^c); every pair is distinct and non-trivial",
-    "legs": [full("domains", "domains", q=FULL_ONE, t=FULL_ONE)],
-    "min_evaluations": {"quick": 18721, "thorough": 18721},
+    "rule": "all (log_trace_domain_size, log_n_cosets) with sum in 0..=192; per pair: sizes are the powers of two, g^(2^e) == 1 and g^(2^(e-1)) == -1 for both generators (order exactly 2^e / 2^t), trace_generator == eval_generator^(2^c), the answer is independent of earlier calls; run against swiftness_air built with and without its `std` feature (2 x 18721 evaluations); every pair is distinct and non-trivial",
+    "legs": [full("domains", "domains", q=FULL_ONE, t=FULL_ONE),
+             {"name": "domains-nostd", "kind": "nostd", "cmd": "domains", "builds": {"quick": FULL_ONE, "thorough": FULL_ONE}}],
+    "required_counters": ["nostd_build"],
+    "min_evaluations": {"quick": 2 * 18721, "thorough": 2 * 18721},
     "assumptions": TRUSTED[:1],
 }
 
@@ -125,7 +127,7 @@ PROPS["C02"] = {
     "level_text": 'Per-position fault enumeration on accepted proofs: every vector deletion and (thorough) every scalar position with 3 replacement values, on all 26 honest proofs under their builds; acceptance of any mutant refutes. Exhaustive over positions, sampled over values.',
     "level": "fault_enumeration",
     "technique": "runtime fault-injection monitor: per-position mutants (value replacement, element deletion) of accepted proofs run through the real StarkProof::verify in crash-isolated workers; acceptance of any mutant is the refuting observation; every run is also checked by the transcript trace monitor",
-    "rule": "for each accepted honest proof (quick: one per shipped build chosen by seed; thorough: all 26): every vector loses its first, last and one middle element; every scalar leaf of the serde form (quick: <=14 sampled leaves per position class; thorough: all ~3k leaves) is replaced by 2 (quick) / 3 (thorough) different values out of {+1, -1, flipped bit 0, flipped bit 200, random, 0, 1}; a mutant counts only if it deserialises and differs from the original; appended trailing elements are recorded without verdict; distinct = distinct (proof, position, value)",
+    "rule": "for each accepted honest proof (quick: one per shipped build chosen by seed; thorough: all 26): every vector loses its first, last and one middle element; every scalar leaf of the serde form (quick: <=14 sampled leaves per position class; thorough: all ~3k leaves) is replaced by 2 (quick) / 3 (thorough) different values out of {+1, -1, flipped bit 0, flipped bit 200, flipped bit 250, random, 0, 1}, consecutive leaves of a class walking through all kinds; configuration numbers always get every kind; a mutant counts only if it deserialises and differs from the original; appended trailing elements are recorded without verdict; distinct = distinct (proof, position, value)",
     "legs": [full("tamper", "tamper", t=FULL_SHIPPED, sharded=True, timeout={"quick": 1500, "thorough": 14000})],
     "required_counters": ["originals_accepted", "mutants_rejected"],
     "min_evaluations": {"quick": 300, "thorough": 20000},
@@ -136,7 +138,7 @@ PROPS["C18"] = {
     "level_text": 'Structural fault enumeration with a panic/abort monitor in crash-isolated workers, bucketed by panic site; supplementary valgrind / ASan legs in the thorough tier.',
     "level": "fault_enumeration",
     "technique": "runtime crash monitor: structural malformations of accepted proofs run through the real StarkProof::verify and the three standalone validation entry points under a panic hook + catch_unwind, in crash-isolated worker processes with an address-space limit and CPU watchdog; panics are bucketed by (file, source line text, message class)",
-    "rule": "for each honest proof (quick: one per shipped build; thorough: all 26): every vector truncated to 0/1/len-1, extended, rotated; same-typed vectors swapped; every config / public-input number (and a sample of all other numbers) set to each of {0,1,2^16,2^32,2^40,2^63,2^64-1,2^64,2^128,2^250,p-2,p-1}; typed group edits (hostile value with dependent fields re-declared consistently); random pairs and triples of these; a case is non-trivial when the edited proof is well-typed and differs from the original",
+    "rule": "for each honest proof (quick: one per shipped build; thorough: all 26): every vector truncated to 0/1/len-1, extended, rotated; same-typed vectors swapped; every config / public-input number (and a sample of all other numbers) set to each of {0,1,2^16,2^32,2^40,2^63,2^64-1,2^64,2^128,2^250,p-2,p-1, original + 2^32 / 2^64 / 2^128 / 7*2^248}; 15 typed group edits (hostile value with dependent fields re-declared consistently; a table declared with zero columns and its values emptied; output / program spans of 2^32..2^64-1 cells, alone and paired so that only their sum overflows the machine word; a surplus trailing FRI step); random pairs and triples of these; a case is non-trivial when the edited proof is well-typed and differs from the original",
     "legs": [full("malformed", "malformed", t=FULL_SHIPPED, sharded=True, timeout={"quick": 1500, "thorough": 14000}),
              tool_leg("memcheck", "valgrind", "full", "malformed", FULL_ONE, shards=16, of=40),
              tool_leg("asan", "asan", "full", "malformed", FULL_ONE, shards=16, of=16)],
@@ -159,7 +161,7 @@ PROPS["C11"] = {
     "level_text": "Differential exploration against the statement's integer predicate (three-valued) over boundary values of every field, truncations, 9 consistent re-declaration groups, cross products and random pairs, from honest and synthesised seeds.",
     "level": "exploration",
     "technique": "runtime differential monitor: real StarkConfig::validate vs the property's predicate evaluated over arbitrary-precision integers (three-valued: accept / reject / don't-care), on boundary-value, truncation, consistent-re-declaration and pairwise edits of honest and synthesised configurations",
-    "rule": "seed configs = honest ones (quick: 4 by seed; thorough: all of the build) + 30 / 500 synthesised valid ones; edits: every numeric field <- {0,1,2,4,5,15..21,47..51,128,129,2^16,2^32,2^40,2^63,2^64-1,2^64,2^128,2^250,p-2,p-1,+-1}, every vector truncated to 0/1/len-1 and extended, 9 groups of consistent re-declarations x their value lists (also judged at their own security level), random pairs; security levels exact, +-1, 0, p-1; every case is non-trivial; distinct = distinct (seed config, edit, level)",
+    "rule": "seed configs = honest ones (quick: 4 by seed; thorough: all of the build) + 30 / 500 synthesised valid ones; edits: every numeric field <- {0,1,2,4,5,15..21,47..51,128,129,2^16,2^32,2^40,2^63,2^64-1,2^64,2^128,2^250,p-2,p-1,+-1, original + 2^32 / 2^64 / 3*2^64 / 2^128 / 2^192 / 7*2^248}, every vector truncated to 0/1/len-1 and extended, 15 groups of consistent re-declarations (incl. a surplus trailing FRI step x in {1,2,p-1,p-2,p-4} with the last-layer bound re-declared to match a whole-vector sum) x their value lists (also judged at their own security level), random pairs; security levels exact, +-1, 0, p-1; every case is non-trivial; distinct = distinct (seed config, edit, level)",
     "legs": [full("config", "config", q=FULL_ONE, t=FULL_SHIPPED)],
     "required_counters": ["expected_Accept.accepted", "expected_Reject.rejected", "group.blowup_mod_p", "group.fri_input_only"],
     "assumptions": TRUSTED[:1] + ["constraints the implementation enforces beyond the statement (friendly count of FRI layers, surplus vector elements, 1..=128 column range) are a don't-care region"],
@@ -169,7 +171,7 @@ PROPS["C01"] = {
     "level_text": "Attack-family exploration: complete forged proofs for AIR-violating traces, one cheating mechanism each (11 strategies incl. the three total breaks found on the original tree), are run through the real verifier; 'held' means every implemented attack was rejected, and the trace monitor shows at which protocol stage. Universal soundness is out of reach of runtime monitoring; this is the strongest executable evidence for the named mechanisms.",
     "level": "exploration",
     "technique": "runtime adversarial monitor: a cheating-prover toolkit builds complete forged proofs (constant, AIR-violating trace; honest Merkle openings; real FRI proving of the resulting DEEP function; ground PoW) that cheat in exactly one mechanism each; acceptance by the real StarkProof::verify is the refuting observation; the transcript trace monitor records how far each run got",
-    "rule": "forgeries = (template statement/config of an honest proof of the build, strategy, repetition); strategies S1 bad trace/honest rest, S2 OODS length decoupling (also with a falsified output), S3 FRI domain larger than the evaluation domain, S5 blow-up exponent p-2, S6 zero queries, S8 wrong openings with honest FRI (control), S9 last-layer length, S10 PoW not ground; a forgery is non-trivial when the harness confirmed that the committed constant trace violates the AIR (constraint combination at the OODS point != committed composition); quick: 2 smallest templates per build, thorough: all templates x 3 repetitions",
+    "rule": "forgeries = (template statement/config of an honest proof of the build, strategy, repetition); strategies S1 bad trace/honest rest, S2 OODS length decoupling (also with a falsified output), S3 FRI domain larger than the evaluation domain, S11 degree bound raised to the domain size behind a surplus trailing FRI step of p - blow-up, S5 blow-up exponent p-2, S6 zero queries, S8 wrong openings with honest FRI (control), S9 last-layer length, S10 PoW not ground; a forgery is non-trivial when the harness confirmed that the committed constant trace violates the AIR (constraint combination at the OODS point != committed composition); quick: 2 smallest templates per build, thorough: all templates x 3 repetitions",
     "legs": [full("forge", "forge", t=FULL_SHIPPED, serial=True, timeout={"quick": 1800, "thorough": 14000}),
              full("dynprofile", "dynprofile", q=[("blake2s_248_lsb", "stone6")], t=[("blake2s_248_lsb", "stone6")], args=["--profile", "/verif/profiles/dynamic_accept.json"])],
     "required_counters": ["attempts.S1 bad-trace-honest-rest", "attempts.S2 oods-length-decoupling", "attempts.S3 fri-domain-larger-than-eval", "attempts.S5 blowup-mod-p", "rejected_by_the_targeted_check", "parameters_profiled"],
@@ -180,9 +182,10 @@ PROPS["C17"] = {
     "level_text": 'Resource monitoring under hostile numeric values (alone, re-declared consistently, and in cross products): transcript-event budget (hook), heap counters, CPU-time budget, address-space limit, in crash-isolated workers.',
     "level": "exploration",
     "technique": "runtime resource monitor: hostile numeric values (alone and with dependent fields re-declared consistently) run through the real verifier in crash-isolated workers under a transcript-event budget (hook), a counting global allocator, an 8 GiB address-space limit and a CPU-time watchdog; verdicts on logical counters and CPU time only",
-    "rule": "bounded restatement: for a proof of S serialised bytes holding N field elements: transcript events <= 64+4N, peak heap <= 64S+64MiB, total allocation <= 4096S+256MiB, CPU <= max(10 s, 200x the honest original measured in the same process); cases = every numeric leaf <- {0,1,2^16,2^32,2^40,2^63,2^64-1,2^64,2^128,2^250,p-2,p-1} (quick: config/public-input scalars + 500 sampled), 9 re-declaration groups x value lists, group x leaf and group x group combinations; non-trivial = well-typed and different from the original",
-    "legs": [full("resource", "resource", t=FULL_SHIPPED, sharded=True, timeout={"quick": 1500, "thorough": 14000})],
-    "required_counters": ["honest.events", "outcome.error_value"],
+    "rule": "bounded restatement: for a proof of S serialised bytes holding N field elements: transcript events <= 64+4N, peak heap <= 64S+64MiB, total allocation <= 4096S+256MiB, CPU <= max(10 s, 200x the honest original measured in the same process); cases = every numeric leaf <- {0,1,2^16,2^32,2^40,2^63,2^64-1,2^64,2^128,2^250,p-2,p-1} (quick: config/public-input scalars + 500 sampled), 15 re-declaration groups x value lists, group x leaf and group x group combinations, program-length x output-length pairs at the machine-word edge; parser side (leg parserres): page numbers, addresses, proof parameters, public-input scalars, segment bounds, dynamic parameters of shipped FILES set to 2^16..2^53, parse + CLI conversion under the same heap / CPU budgets with S the file size; non-trivial = well-typed and different from the original",
+    "legs": [full("resource", "resource", t=FULL_SHIPPED, sharded=True, timeout={"quick": 1500, "thorough": 14000}),
+             full("parserres", "parserres", q=FULL_ONE, t=FULL_ONE, sharded=True, timeout={"quick": 900, "thorough": 3600})],
+    "required_counters": ["honest.events", "outcome.error_value", "parser.cases"],
     "min_evaluations": {"quick": 500, "thorough": 20000},
     "assumptions": TRUSTED + ["unbounded termination is restated as the stated budgets (>= 100x head-room over a size-proportional verifier)", "a parent wall-clock watchdog firing is inconclusive, never a violation"],
 }
@@ -191,7 +194,7 @@ PROPS["C13"] = {
     "level_text": 'Metamorphic exploration: per seed input, the digests of its whole edit neighbourhood are collected in one set; any collision between different inputs refutes; recorded proofs pin the formula.',
     "level": "exploration",
     "technique": "runtime metamorphic monitor on the real PublicInput::get_hash: digests of every single-field change, main-page insertion/deletion/duplication/transposition, segment and page-header edits collected into one collision set per seed input; digest model cross-check; recorded Stone proofs: the digest reproduces the prover's first challenges (transcript hook)",
-    "rule": "seeds = honest public inputs of the build + 24 (quick) / 300 (thorough) random ones (0..=600 cells, 0..=12 segments, 0..=4 page headers, random dynamic parameters for the dynamic layout); variants = every scalar leaf +1 (+2 thorough), friendly-layer count (stone6), main-page insertion / duplication / deletion / adjacent transposition / address-value exchange at every position (<= 80 sampled positions per seed in quick), compensating changes, segment / header insertion / deletion / transposition, padding and range-check exchanges; any two different inputs with equal digests violate; a variant is non-trivial when the changed field is in the statement",
+    "rule": "seeds = honest public inputs of the build + 24 (quick) / 300 (thorough) random ones (0..=600 cells, 0..=12 segments, 0..=4 page headers, random dynamic parameters for the dynamic layout); variants = every scalar leaf +1 (+2 thorough), friendly-layer count (stone6), main-page insertion / duplication / deletion / adjacent transposition / address-value exchange at every position (<= 80 sampled positions per seed in quick), the friendly-layer count at 0, 1, p-1, 2^8..2^250 and original + 2^8..2^250 (stone6; each also against the digest model), compensating changes, segment / header insertion / deletion / transposition, padding and range-check exchanges, the same object edited in place and hashed again (6 edits per seed, compared with a fresh equal object and the digest model); any two different inputs with equal digests violate; a variant is non-trivial when the changed field is in the statement",
     "legs": [full("pihash", "pihash", q=FULL_SHIPPED, t=FULL_SHIPPED), full("recorded", "recorded", t=FULL_SHIPPED)],
     "required_counters": ["changed.main_page[*].address", "changed.segments[*].begin_addr", "equal_copies_checked", "recorded_transcripts_equal"],
     "assumptions": TRUSTED[:1] + ["collision-freeness is observed on the enumerated neighbourhoods, not proved for the hash functions"],
@@ -201,9 +204,9 @@ PROPS["C15"] = {
     "level_text": 'Differential exploration against naive evaluation: all 240 (n_bits, spacing) pairs; thousands of random public memories.',
     "level": "exploration",
     "technique": "runtime differential monitor: real get_diluted_product vs the naive recurrence over all 2^n_bits diluted values; real get_public_memory_product_ratio vs the naive product formula",
-    "rule": "diluted: all 240 (n_bits 1..=16, spacing 1..=15) pairs (including every layout's (16,4)) x 4 (quick) / 20 (thorough) (z, alpha) pairs including 0, 1, -1; memory: the honest public memories of the build + 200 / 2000 random ones (0..=300 cells with special values, 0..=3 page headers, column sizes from the exact length to 2^30, random padding cell); non-trivial: n_bits >= 2, resp. >= 2 cells",
+    "rule": "diluted: all 240 (n_bits 1..=16, spacing 1..=15) pairs (including every layout's (16,4)) x 4 (quick) / 20 (thorough) (z, alpha) pairs including 0, 1, -1; memory: the honest public memories of the build + 200 / 2000 random ones (0..=300 cells with special values, 0..=3 page headers, column sizes from the exact length to 2^127, random padding cell, pages with repeated / adjacent equal cells); non-trivial: n_bits >= 2, resp. >= 2 cells",
     "legs": [full("boundary", "boundary", q=FULL_ONE, t=FULL_SHIPPED)],
-    "required_counters": ["diluted.layout_parameters_16_4", "memory.real_public_memories", "memory.random_public_memories"],
+    "required_counters": ["diluted.layout_parameters_16_4", "memory.real_public_memories", "memory.random_public_memories", "memory.pages_with_adjacent_equal_cells"],
     "assumptions": TRUSTED[:1] + ["n_bits = 0 is outside the closed form's contract (it would not terminate) and is not claimed"],
 }
 
@@ -211,9 +214,9 @@ PROPS["C16"] = {
     "level_text": 'Algebraic probing at random points: linearity, unit decomposition, non-vanishing of every coefficient position, per-term dependence, and measured per-builtin membership for the dynamic layout.',
     "level": "exploration",
     "technique": "runtime algebraic probing of the real eval_composition_polynomial / eval_oods_polynomial of all 7 layouts at random points: linearity in the coefficient vector, decomposition into unit-vector evaluations, non-vanishing of every position, per-term dependence of DEEP terms; stark_commit's DEEP coefficient vector checked against the transcript hook",
-    "rule": "per layout x 2 (quick) / 6 (thorough) random environments (mask values, point, OODS point, interaction elements from a random transcript, honest public input and domain): additivity, homogeneity, f(c) = sum_i c_i f(e_i) over all N_CONSTRAINTS unit vectors, every f(e_i) != 0 (dynamic: with every builtin flag enabled, and every position active in the shipped instance stays active), and for each of the MASK_SIZE+2 DEEP terms: non-zero, depends on oods_values[i] and on no other opening, depends on exactly one column; each probed position is one case",
+    "rule": "per layout x 2 (quick) / 6 (thorough) random environments (mask values, point, OODS point, interaction elements from a random transcript, honest public input and domain): additivity, homogeneity, f(c) = sum_i c_i f(e_i) over all N_CONSTRAINTS unit vectors, every f(e_i) != 0 (dynamic: with every builtin flag enabled, and every position active in the shipped instance stays active), and for each of the MASK_SIZE+2 DEEP terms: non-zero, depends on oods_values[i] and on no other opening, depends on exactly one column; dynamic layout: with every `*_column` parameter given a column of its own and the `*_offset` parameters bumped along an 8-bit code, each of the 941 trace-cell terms must read the column and follow the row offset of the SAME cell (and only the 2 composition terms may read an unnamed column); each probed position is one case",
     "legs": [full("coeffs", "coeffs", q=[("keccak_160_lsb", "stone5"), ("blake2s_248_lsb", "stone6")], t=FULL_SHIPPED)],
-    "required_counters": ["positions_nonzero.dynamic", "positions_nonzero.recursive", "positions_nonzero.starknet_with_keccak", "stark_commit.coefficient_vectors_checked"],
+    "required_counters": ["positions_nonzero.dynamic", "positions_nonzero.recursive", "positions_nonzero.starknet_with_keccak", "stark_commit.coefficient_vectors_checked", "dynamic.deep_terms_pairing_checked"],
     "assumptions": TRUSTED + ["polynomial identities are tested at random points (a non-zero rational function vanishes at a random point with probability ~2^-240)"],
 }
 
@@ -221,7 +224,7 @@ PROPS["C14"] = {
     "level_text": 'Differential exploration against an integer predicate (validation) and an address-based hash oracle (returned hashes) over boundary values, cooperating edits and every main-page address perturbation, per layout.',
     "level": "exploration",
     "technique": "runtime differential monitor: real validate_public_input vs the statement's predicate over arbitrary-precision integers (three-valued), and real verify_public_input vs an address-based Pedersen-chain oracle, on boundary-value and address-perturbation edits of each layout's honest public input",
-    "rule": "per layout of the build: validation edits = step-count exponents around 79/80, range-check bounds around 0 / 0xffff, every other layout's code, segment count +-1, for every builtin the stop pointer at 0 / max / max+1 instances, +-1 cell, below the start, 2^64 instances, wrap-around start, one instance on a trace shorter than the row ratio, trace sizes 2^0..2^24 (2^30 thorough) with and without the step count following; hash edits = every main-page cell's address +1/-1/+0x1000, removal, duplication, neighbour and random swaps (<=64 cells sampled in quick), truncations, program/execution/output bounds +-1, +7, +2^40; rule for hashes: a real Ok(pair) must equal the address-based chains and those must be computable; every edit is a distinct non-trivial case",
+    "rule": "per layout of the build: validation edits = step-count exponents around 79/80, range-check bounds around 0 / 0xffff, every other layout's code, segment count +-1, for every builtin the stop pointer at 0 / max / max+1 instances, +-1 cell, below the start, 2^64 instances, wrap-around start, one instance on a trace shorter than the row ratio, trace sizes 2^0..2^24 (2^30 thorough) with and without the step count following; hash edits = every main-page cell's address +1/-1/+0x1000/+2^32/+2^64/+3*2^64/+2^128, removal, duplication, neighbour and random swaps (<=64 cells sampled in quick), truncations, program/execution/output bounds +-1, +7, +2^40, each of the three segments moved as a whole by +-1, +7, +0x1000, +2^32, +2^64, +2^128 over an untouched page; rule for hashes: a real Ok(pair) must equal the address-based chains and those must be computable; every edit is a distinct non-trivial case",
     "legs": [full("pubinput", "pubinput", q=FULL_SHIPPED, t=FULL_SHIPPED)],
     "required_counters": ["validate.expected_Accept.accepted", "validate.expected_Reject.rejected", "verify.hashes_equal_address_based_oracle", "verify.oracle_fails.rejected"],
     "assumptions": TRUSTED + ["dynamic layout: the autogenerated dynamic-parameter assertions are not part of the statement (don't-care once the listed conjuncts hold)", "an address listed twice with different values is left to the AIR's memory argument: either value is accepted by the hash oracle"],
@@ -231,7 +234,7 @@ PROPS["C19"] = {
     "level_text": "Differential exploration against an independent Stone-file loader over ~200 classified edits per file, with a panic monitor around the repository's parse + convert pipeline.",
     "level": "exploration",
     "technique": "runtime differential monitor: the repository's proof parser + CLI conversion vs an independent Stone-file loader (plain string splitting, name-based matching) on the shipped files and on ~200 classified edits of each; panic hook around the pipeline",
-    "rule": "files: quick = 3 shipped files by seed + the dynamic-layout file, thorough = all 25; edits per file: proof parameters at boundary values (n_queries, proof_of_work_bits incl. 256/286, last_layer_degree_bound, log_n_cosets, n_friendly, step lists), public-input scalars, every segment renamed/rebound/removed and new segments added, public-memory values (bad, empty, upper-case hex, p), addresses, pages, removal, reordering, dynamic parameters changed/removed/renamed/added, annotation lines per class removed / swapped / duplicated / altered / with bad hex / injected, list elements removed / swapped, nonce 0 / 2^64-1 / 2^64 / 128-bit; each edit is marked well-formed (pipeline output must equal the loader's), malformed or not representable (pipeline must return an error) or unknown (recorded); a panic is a violation for every mark",
+    "rule": "files: quick = 3 shipped files by seed + the dynamic-layout file, thorough = all 25; edits per file: proof parameters at boundary values (n_queries, proof_of_work_bits incl. 256/286, last_layer_degree_bound, log_n_cosets, n_friendly, step lists, steps of 32..63 inside a re-declared 2^60 domain), public-input scalars, every segment renamed/rebound/removed and new segments added, public-memory values (bad, empty, upper-case hex, p), addresses, pages (a cell moved to page 1, page-1/2 cells inserted / appended / interleaved: the main page handed over must be every page-0 cell in order), removal, reordering, dynamic parameters changed/removed/renamed/added, annotation lines per class removed / swapped / duplicated / altered / with bad hex / injected, list elements removed / swapped, nonce 0 / 2^64-1 / 2^64 / 128-bit; each edit is marked well-formed (pipeline output must equal the loader's), malformed or not representable (pipeline must return an error) or unknown (recorded); a panic is a violation for every mark",
     "legs": [full("parser", "parser", q=FULL_ONE, t=FULL_ONE)],
     "required_counters": ["shipped_files_equal", "wellformed_equal", "malformed_rejected"],
     "assumptions": TRUSTED[:1] + ["cli/src/main.rs itself cannot be built offline (clap); its three-call pipeline parse -> transform_to is what is executed", "the loader's reading of the Stone file format (segment order, double-underscore parameter names) was validated on the 25 shipped files"],
